@@ -85,6 +85,7 @@ def run(ctx, spec):
     res = C.prove(ctx, spec["prop_file"], extra_targets=["Corr/Compare.vo"])
     ctx.log("proof stage:", "ok (%d theorems)" % res["discharged"] if res["ok"] else "BROKEN at " + res["stage"] + " " + str(res.get("failed_at", "")))
 
+    adapt_info = None
     spec["proof_ok"] = res["ok"]      # oracles that set marginal outcomes aside as known findings stop doing so when the proof is broken
     if ctx.replay:
         cases = replay_cases(ctx)
@@ -98,6 +99,7 @@ def run(ctx, spec):
             ngroups = len({c.get("group") for c in cases if c.get("group") is not None})
             ctx.log("requested error per group adapted to what the solver reaches: %d of %d groups have a reference run that solves (factors %s)" % (
                 len(chosen), ngroups, sorted(set(chosen.values()))))
+            adapt_info = {"groups": ngroups, "groups_with_a_solved_reference_run": len(chosen), "error_factors_used": sorted(set(chosen.values()))}
     outs = S.run_pipeline(ctx, cases)
     ctx.log("ran %d structures through the implementation" % len(cases))
 
@@ -186,6 +188,8 @@ def run(ctx, spec):
         "structure_theorem_hypotheses_hold_on": ctx.stage_counts.get("H"),
         "samples": [c["Text"] for c in cases[-2:]] if cases else [],
     }
+    if adapt_info:
+        ctx.coverage["adaptive_error"] = adapt_info
     ctx.assumptions = spec.get("assumptions", [])
 
 
